@@ -32,7 +32,15 @@ RULE = (
     "cannot emit) patched into the encoded stream through the library's maps — complete over positions x points for the "
     "chosen blocks (all 64 alternating blocks plus 4 / 60 seeded random blocks).  Distinct by construction "
     "(enumerations) / by hash (Hypothesis).  Non-trivial: blocks with >= 3 distinct tribits; every patched stream; "
-    "alternating blocks with a != b."
+    "alternating blocks with a != b.  Interleaved histories: judged operations (round trip in three input forms, decode of an "
+    "encoder-made stream in four containers, rejection of an unemittable point) with stimulus in between - every other way of "
+    "calling trellis.py on values derived from the judged block or a near twin of it: valid paths with flush tribit 1..7, streams "
+    "refused at position k, wrong lengths, refused / out-of-domain encode arguments, the public state walks called directly "
+    "(no flush, flush != 0, tribit out of range at k, fewer than 49 points), every helper with valid / short / long / garbage "
+    "arguments and its result scribbled on; complete over the stimulus shapes x 7 judged operations (directed) plus seeded "
+    "random histories of 2..9 operations; retained results are compared with their snapshots at the end and every block is "
+    "round-tripped once more; non-trivial = a judged operation follows a stimulus, or near twins.  The same stimuli serve as "
+    "the module's prelude (prelude_for) for every 8th case of all other sub-checks."
 )
 ASSUMPTIONS = [
     "blocks are big-endian bitarrays of exactly 144 bits or bytes of exactly 18 octets (what Burst passes); containers are only "
@@ -48,6 +56,10 @@ ASSUMPTIONS = [
     "the check does not compare the interleave order or the transition table with ETSI TS 102 361-1 tables B.8/B.9: the "
     "statement claims losslessness, inverse permutations and rejection, not conformance (the repository's captured "
     "vectors cover conformance)",
+    "interleaved / preludes: a stimulus (direct call of a public helper, a stream this encoder cannot produce, a refused or "
+    "out-of-domain call, built from the reference so that it does not depend on library state) is never judged - only the "
+    "operations of the statement around it are; a worker stops after its first failing history so that every reported history "
+    "is self-contained (replays in a fresh interpreter)",
 ]
 
 
@@ -646,6 +658,401 @@ def drv_reuse(ctx: Ctx, sub: SubCheck):
     ctx.shards(work, list(range(16)))
 
 
+# ---------------------------------------------------------------------------------------------- interleaved histories (round 7)
+#
+# Stimulus = every call of trellis.py that is NOT "encode a 144-bit block / decode what encode produced": sibling entry points on
+# values related to the judged block (the public state walks called directly, a received stream that is a valid trellis path
+# but was not produced by this encoder: flush tribit 1..7), calls that are rightly refused half-way (unemittable point at
+# position k, too few points, a tribit out of range at position k, wrong lengths, wrong types), inputs accepted outside the
+# judged domain (more than 144 bits, little-endian bits), helpers whose returned arrays the caller then scribbles on.  Nothing
+# is claimed about a stimulus; the judged operations around it (round trip, decode of an encoder-made stream, rejection of an
+# unemittable point) must not notice it.  The reference (vp/refs/trellis34_ref.py) only builds stimulus values.
+
+
+def ref_chain(tribits49, override=None):
+    """reference values of every stage for a tribit sequence: points, de-interleaved dibits, interleaved dibits, bits (str).
+    override = (position, point) replaces one constellation point after the state walk."""
+    state, pts = 0, []
+    for t in tribits49:
+        pts.append(tref.transition(state, t))
+        state = t
+    if override is not None:
+        pts[override[0]] = override[1]
+    de = [v for p in pts for v in (tref._POINT_I[p], tref._POINT_Q[p])]
+    inter = [de[tref.INTERLEAVE[i]] for i in range(len(de))] if len(de) == 98 else list(de)
+    bits = "".join("%d%d" % tref._SYMBOL_BITS[d] for d in inter)
+    return {"points": pts, "de": de, "inter": inter, "bits": bits}
+
+
+def ref_unemittable(state):
+    row = {tref.transition(state, t) for t in range(8)}
+    return [p for p in range(16) if p not in row]
+
+
+STIM_KINDS = ["foreign", "refused", "badlen", "encbad", "walk_t", "walk_p", "helper", "valid"]
+_ENCBAD = ["short_bits", "short_bytes", "empty_bytes", "empty_bits", "str", "none", "bytearray", "int", "list", "long_bits", "long_bytes", "little", "frozen_little", "memoryview"]
+_WALK_T = ["no_flush", "flush", "oob", "empty", "short", "twice", "list"]
+_WALK_P = ["short", "bad_point", "unemittable", "foreign", "valid", "negative", "list"]
+_HELPERS = ["bits_to_dibits", "dibits_to_bits", "interleave", "deinterleave", "dibits_to_points", "points_to_dibits", "points_to_tribits", "tribits_to_points", "tribits_to_bits", "bits_to_tribits"]
+_HELPER_VARIANTS = ["valid", "short", "long", "garbage", "empty", "wrong_type"]
+_DAMAGES = ["none", "zero", "reverse", "grow", "shrink", "flip"]
+_BADLEN = [0, 1, 4, 144, 192, 194, 195, 197, 198, 200, 392]
+
+
+def _damage_any(obj, how):
+    """scribble on an array / bitarray the library returned (the caller owns it)"""
+    try:
+        if how == "none" or obj is None or not hasattr(obj, "__len__"):
+            return
+        if isinstance(obj, (bytes, frozenbitarray)):
+            return
+        n = len(obj)
+        if how == "zero":
+            for i in range(n):
+                obj[i] = 0
+        elif how == "reverse":
+            obj.reverse()
+        elif how == "grow":
+            obj.extend([1, 0, 1])
+        elif how == "shrink":
+            del obj[n // 2 :]
+        elif how == "flip" and n:
+            obj[n // 3] = 1 - (obj[n // 3] & 1) if not isinstance(obj, bitarray) else (not obj[n // 3])
+    except (TypeError, ValueError, OverflowError, AttributeError, IndexError):
+        pass
+
+
+def stim_call(block, op):
+    """(function, args) of the library call an abstract stimulus ``op`` stands for, with values derived from ``block``"""
+    t = T()
+    tri = block_tribits(block) + [0]
+    kind = op["k"]
+    pos = int(op.get("pos", 0)) % 49
+    if kind == "valid":  # an ordinary call of the other direction / form (an encoder-made stream decoded, the block encoded)
+        if op.get("dir") == "decode":
+            return t.decode, (make_bits(ref_chain(tri)["bits"], op.get("rep", "big")), bool(op.get("as_bytes")))
+        return t.encode, (bytes.fromhex(block) if op.get("form") == "bytes" else make_bits(format(int(block, 16), "0144b"), "frozen_big" if op.get("form") == "frozen" else "big"),)
+    if kind == "foreign":  # valid trellis path that this encoder cannot produce: flush tribit 1..7
+        tri[48] = 1 + (int(op.get("flush", 1)) - 1) % 7
+        return t.decode, (make_bits(ref_chain(tri)["bits"], op.get("rep", "big")), bool(op.get("as_bytes")))
+    if kind == "refused":  # unemittable point at position pos: refused after pos points were walked
+        state = 0 if pos == 0 else tri[pos - 1]
+        bad = ref_unemittable(state)[int(op.get("pt", 0)) % 8]
+        return t.decode, (make_bits(ref_chain(tri, (pos, bad))["bits"], op.get("rep", "big")), bool(op.get("as_bytes")))
+    if kind == "badlen":
+        n = int(op.get("n", 195))
+        s = (ref_chain(tri)["bits"] * 2)[:n]
+        return t.decode, (make_bits(s, op.get("rep", "big")), bool(op.get("as_bytes")))
+    if kind == "encbad":
+        how = op.get("how", "short_bits")
+        s144 = format(int(block, 16), "0144b")
+        raw = bytes.fromhex(block)
+        arg = {
+            "short_bits": lambda: bitarray(s144[:143]), "short_bytes": lambda: raw[:17], "empty_bytes": lambda: b"", "empty_bits": lambda: bitarray(),
+            "str": lambda: s144, "none": lambda: None, "bytearray": lambda: bytearray(raw), "int": lambda: 144, "list": lambda: [int(c) for c in s144],
+            "long_bits": lambda: bitarray(s144 + "101"), "long_bytes": lambda: raw + b"\x00", "little": lambda: make_bits(s144, "little"),
+            "frozen_little": lambda: make_bits(s144, "frozen_little"), "memoryview": lambda: memoryview(raw),
+        }[how]()
+        return t.encode, (arg,)
+    if kind == "walk_t":  # the encoder's state walk called directly
+        how = op.get("how", "no_flush")
+        seq = {
+            "no_flush": lambda: tri[:48], "flush": lambda: tri[:48] + [1 + pos % 7], "oob": lambda: tri[:pos] + [8 + (int(op.get("pt", 0)) * 31) % 248] + tri[pos + 1 :],
+            "empty": lambda: [], "short": lambda: tri[: pos + 1], "twice": lambda: tri[:48] + tri[:48], "list": lambda: tri[:48] + [1 + pos % 7],
+        }[how]()
+        return t.tribits_to_points, (seq if how == "list" else array("B", seq),)
+    if kind == "walk_p":  # the decoder's state walk called directly
+        how = op.get("how", "short")
+        pts = ref_chain(tri)["points"]
+        state = 0 if pos == 0 else tri[pos - 1]
+        seq = {
+            "short": lambda: pts[:pos], "bad_point": lambda: pts[:pos] + [16 + (int(op.get("pt", 0)) * 29) % 240] + pts[pos + 1 :],
+            "unemittable": lambda: pts[:pos] + [ref_unemittable(state)[int(op.get("pt", 0)) % 8]] + pts[pos + 1 :],
+            "foreign": lambda: ref_chain(tri[:48] + [1 + pos % 7])["points"], "valid": lambda: pts, "negative": lambda: pts[:pos] + [-1 - int(op.get("pt", 0)) % 8] + pts[pos + 1 :],
+            "list": lambda: ref_chain(tri[:48] + [1 + pos % 7])["points"],
+        }[how]()
+        return t.points_to_tribits, (seq if how in ("list", "negative") else array("B", seq),)
+    if kind == "helper":
+        name, var = op.get("fn", "interleave"), op.get("how", "valid")
+        ch = ref_chain(tri)
+        valid = {
+            "bits_to_dibits": lambda: bitarray(ch["bits"]), "dibits_to_bits": lambda: array("b", ch["inter"]), "interleave": lambda: array("b", ch["de"]),
+            "deinterleave": lambda: array("b", ch["inter"]), "dibits_to_points": lambda: array("b", ch["de"]), "points_to_dibits": lambda: array("B", ch["points"]),
+            "points_to_tribits": lambda: array("B", ch["points"]), "tribits_to_points": lambda: array("B", tri), "tribits_to_bits": lambda: array("B", tri),
+            "bits_to_tribits": lambda: bitarray(format(int(block, 16), "0144b")),
+        }[name]()
+        if var == "short":
+            arg = valid[: max(1, pos)]
+        elif var == "long":
+            arg = valid + valid[: 1 + pos]
+        elif var == "garbage":
+            arg = bitarray(format(pos + 1, "07b") * 28) if isinstance(valid, bitarray) else array(valid.typecode, [(7 * i + pos) % 120 for i in range(len(valid))])
+        elif var == "empty":
+            arg = valid[:0]
+        elif var == "wrong_type":
+            arg = [None, "0110", 5, b"\x01\x02", {}][pos % 5]
+        else:
+            arg = valid
+        return getattr(t, name), (arg,)
+    raise HarnessError(f"unknown stimulus {kind}")
+
+
+def run_stim(block, op):
+    """run one stimulus; what it returns or raises is ignored; the returned object is scribbled on when the op says so"""
+    fn, args = stim_call(block, op)
+    try:
+        res = fn(*args)
+    except (KeyboardInterrupt, SystemExit, MemoryError):
+        raise
+    except BaseException:
+        return None
+    _damage_any(res, op.get("damage", "none"))
+    return res
+
+
+def _op_stim(a):
+    run_stim(a["block"], a["op"])
+
+
+PRELUDE_OPS = {"stim": _op_stim}
+
+
+def random_stim(rng):
+    k = rng.choice(STIM_KINDS + ["foreign", "refused", "walk_t", "walk_p"])
+    op = {"k": k, "pos": rng.choice([0, 1, 2, 24, 46, 47, 48, rng.randrange(49)]), "pt": rng.randrange(8), "rep": rng.choice(["big", "big", "little", "frozen_big"]),
+          "as_bytes": rng.random() < 0.3, "damage": rng.choice(_DAMAGES)}
+    if k == "foreign":
+        op["flush"] = rng.randrange(1, 8)
+    elif k == "badlen":
+        op["n"] = rng.choice(_BADLEN)
+    elif k == "encbad":
+        op["how"] = rng.choice(_ENCBAD)
+    elif k == "walk_t":
+        op["how"] = rng.choice(_WALK_T)
+    elif k == "walk_p":
+        op["how"] = rng.choice(_WALK_P)
+    elif k == "helper":
+        op["fn"], op["how"] = rng.choice(_HELPERS), rng.choice(_HELPER_VARIANTS)
+    elif k == "valid":
+        op["dir"], op["form"] = rng.choice(["decode", "encode"]), rng.choice(["bits", "bytes", "frozen"])
+    return op
+
+
+def _case_blocks(case):
+    if not isinstance(case, dict):
+        return []
+    if "blocks" in case:
+        return [b for b in case["blocks"] if isinstance(b, str)]
+    if "block" in case:
+        return [case["block"]]
+    if "a" in case and "b" in case:
+        return [alternating(case["a"], case["b"])]
+    return []
+
+
+def prelude_for(sub, case, rng):
+    """sibling / refused / out-of-domain calls of trellis.py on values derived from the judged block (and on a near twin)"""
+    blocks = _case_blocks(case) or ["%036x" % rng.getrandbits(144)]
+    blk = rng.choice(blocks)
+    calls = []
+    for i in range(3):
+        b = blk if i != 1 else near_twin(blk, rng.choice(TWIN_KINDS), rng.randrange(144))
+        calls.append({"x": "stim", "a": {"block": b, "op": random_stim(rng)}})
+    return calls
+
+
+TWIN_KINDS = ["flip_bit", "last_octet_zero", "first_octet_zero", "last_tribit", "first_tribit", "trailing_zeros", "same"]
+
+
+def near_twin(block, kind, pos=0):
+    """a block that equals ``block`` in everything but what a too-wide key / fast path would overlook"""
+    v = int(block, 16)
+    if kind == "flip_bit":
+        v ^= 1 << (143 - pos % 144)
+    elif kind == "last_octet_zero":
+        v &= ~0xFF
+    elif kind == "first_octet_zero":
+        v &= (1 << 136) - 1
+    elif kind == "last_tribit":
+        v ^= 1 + pos % 7
+    elif kind == "first_tribit":
+        v ^= (1 + pos % 7) << 141
+    elif kind == "trailing_zeros":
+        v &= ~((1 << (8 * (1 + pos % 9))) - 1)
+    return "%036x" % v
+
+
+def _random_block(r):
+    x = r.random()
+    if x < 0.5:
+        return "%036x" % r.getrandbits(144)
+    al = [r.randrange(8) for _ in range(r.randrange(1, 4))]
+    return block_from_tribits([r.choice(al) for _ in range(48)])
+
+
+def _form_arg(blk, form):
+    s = format(int(blk, 16), "0144b")
+    return bytes.fromhex(blk) if form == "bytes" else make_bits(s, "frozen_big" if form == "frozen" else "big")
+
+
+def oracle_interleaved(case):
+    """case = {blocks: [hex36...], ops: [op...]}; op = {k: "rt", i, form} | {k: "dec", i, rep, as_bytes} | {k: "rej", i, pos, pt, rep,
+    as_bytes} | stimulus {k: one of STIM_KINDS, i, ...}.  Judged: every rt (196 bits, equal to the first encoding of that block in
+    this history, decode returns the block), every dec (an encoder-made stream decodes to its block in every container), every rej
+    (a stream with a point the state at that position cannot emit raises - claimed when the reference and the library-derived
+    structure both call it invalid).  Results of judged operations are retained untouched and compared with their snapshots at the
+    end, and every block is round-tripped once more after the last operation."""
+    blocks = case["blocks"]
+    derived_table()  # derive the library's structure before any stimulus runs (cached per process)
+    first, kept = {}, []
+
+    def rt(blk, form, where):
+        want = format(int(blk, 16), "0144b")
+        arg = _form_arg(blk, form)
+        enc = call(T().encode, arg)[1]
+        if not isinstance(enc, bitarray) or len(enc) != 196:
+            raise Fail("encode_yields_196_bits", f"{type(enc).__name__} of length {len(enc) if hasattr(enc, '__len__') else '?'}", "bitarray of 196 bits", where)
+        if not isinstance(arg, bytes) and arg.to01() != want:
+            raise Fail("encode_does_not_mutate_input", arg.to01(), want, where)
+        if blk in first and enc.to01() != first[blk]:
+            raise Fail("encode_same_block_same_bits_regardless_of_history", enc.to01(), first[blk], where)
+        first.setdefault(blk, enc.to01())
+        st, dec = call(T().decode, enc.copy(), allowed=(AssertionError,))
+        if st == "raised" or not isinstance(dec, bitarray) or dec.to01() != want:
+            raise Fail("decode_returns_block", repr(dec) if st == "raised" or not isinstance(dec, bitarray) else dec.to01(), want, where)
+        kept.append((enc, enc.to01(), "encode"))
+        kept.append((dec, want, "decode"))
+
+    for n, op in enumerate(case["ops"]):
+        blk = blocks[op.get("i", 0) % len(blocks)]
+        k = op["k"]
+        if k == "rt":
+            rt(blk, op.get("form", "bits"), f"op_{k}")
+        elif k == "dec":
+            if blk not in first:
+                rt(blk, "bits", "op_dec")
+            want = format(int(blk, 16), "0144b")
+            st, dec = call(T().decode, make_bits(first[blk], op.get("rep", "big")), bool(op.get("as_bytes")), allowed=(AssertionError,))
+            got = dec.to01() if isinstance(dec, bitarray) else (format(int.from_bytes(dec, "big"), "0144b") if isinstance(dec, bytes) and len(dec) == 18 else repr(dec))
+            if st == "raised" or got != want or isinstance(dec, bytes) != bool(op.get("as_bytes")):
+                raise Fail("decode_returns_block", got, want, "op_dec")
+            kept.append((dec, dec if isinstance(dec, bytes) else want, "decode"))
+        elif k == "rej":
+            tri = block_tribits(blk) + [0]
+            pos = int(op.get("pos", 0)) % 49
+            bad_pt = ref_unemittable(0 if pos == 0 else tri[pos - 1])[int(op.get("pt", 0)) % 8]
+            bad = ref_chain(tri, (pos, bad_pt))["bits"]
+            if ref_walk(bad) is None and lib_walk(bad) is None:
+                st, res = call(T().decode, make_bits(bad, op.get("rep", "big")), bool(op.get("as_bytes")), allowed=(Exception,))
+                if st == "ok":
+                    raise Fail("stream_with_unemittable_point_rejected", {"returned": res.to01() if isinstance(res, bitarray) else repr(res)}, "an exception", "in_history")
+        else:
+            run_stim(blk, op)
+    for obj, snap, what in kept:
+        now = obj if isinstance(obj, bytes) else obj.to01()
+        if now != snap:
+            raise Fail("earlier_result_unchanged_by_later_calls", now if isinstance(now, str) else now.hex(), snap if isinstance(snap, str) else snap.hex(), what)
+    for blk in dict.fromkeys(blocks):
+        rt(blk, "bits", "at_end_of_history")
+
+
+def _stim_catalogue():
+    """every stimulus shape once (deterministic): kind x variant x a few positions"""
+    out = []
+    for f in (1, 3, 7):
+        for rep, ab in (("big", False), ("little", True)):
+            out.append({"k": "foreign", "flush": f, "rep": rep, "as_bytes": ab})
+    for pos in (0, 1, 17, 47, 48):
+        for pt in (0, 5):
+            out.append({"k": "refused", "pos": pos, "pt": pt, "as_bytes": pt == 5})
+            out.append({"k": "walk_p", "how": "unemittable", "pos": pos, "pt": pt})
+        out.append({"k": "walk_p", "how": "short", "pos": pos})
+        out.append({"k": "walk_p", "how": "bad_point", "pos": pos, "pt": 3})
+        out.append({"k": "walk_p", "how": "negative", "pos": pos, "pt": 2})
+        out.append({"k": "walk_t", "how": "oob", "pos": pos, "pt": 1})
+        out.append({"k": "walk_t", "how": "oob", "pos": pos, "pt": 7})
+        out.append({"k": "walk_t", "how": "short", "pos": pos})
+        out.append({"k": "walk_t", "how": "flush", "pos": pos})
+    for how in _WALK_T:
+        out.append({"k": "walk_t", "how": how, "pos": 4})
+    for how in _WALK_P:
+        out.append({"k": "walk_p", "how": how, "pos": 4})
+    for n in _BADLEN:
+        out.append({"k": "badlen", "n": n})
+    for how in _ENCBAD:
+        out.append({"k": "encbad", "how": how})
+    for fn in _HELPERS:
+        for how in _HELPER_VARIANTS:
+            out.append({"k": "helper", "fn": fn, "how": how, "pos": 5, "damage": "zero" if how == "valid" else "none"})
+        for dmg in ("reverse", "grow", "shrink", "flip"):
+            out.append({"k": "helper", "fn": fn, "how": "valid", "pos": 5, "damage": dmg})
+    return out
+
+
+def drv_interleaved(ctx: Ctx, sub: SubCheck):
+    rng = ctx.rng("interleaved")
+    judged = [{"k": "rt", "form": "bits"}, {"k": "rt", "form": "bytes"}, {"k": "rt", "form": "frozen"}, {"k": "dec", "rep": "big"}, {"k": "dec", "rep": "little", "as_bytes": True},
+              {"k": "rej", "pos": 0, "pt": 2}, {"k": "rej", "pos": 30, "pt": 6}]
+    det = []
+    for stim in _stim_catalogue():
+        b0 = "%036x" % rng.getrandbits(144)
+        twin = near_twin(b0, rng.choice(TWIN_KINDS), rng.randrange(144))
+        for j in judged:
+            # X, stimulus on X's own values, X again | X, stimulus on a near twin, X again | stimulus first
+            det.append({"blocks": [b0, twin], "ops": [dict(j, i=0), dict(stim, i=0), dict(j, i=0)]})
+        det.append({"blocks": [b0, twin], "ops": [dict(judged[0], i=0), dict(stim, i=1), dict(judged[1], i=0), dict(stim, i=0), dict(judged[3], i=1)]})
+        det.append({"blocks": [b0, twin], "ops": [dict(stim, i=0), dict(judged[2], i=1)]})
+    # near twins encoded / decoded alternately, every twin kind (a key or fast path that is too wide)
+    for kind in TWIN_KINDS:
+        for pos in (0, 7, 71, 143):
+            b0 = "%036x" % rng.getrandbits(144)
+            tw = near_twin(b0, kind, pos)
+            det.append({"blocks": [b0, tw], "ops": [{"k": "rt", "i": 0, "form": "bytes"}, {"k": "rt", "i": 1, "form": "bytes"}, {"k": "dec", "i": 0}, {"k": "dec", "i": 1, "as_bytes": True}, {"k": "rt", "i": 0, "form": "bits"}]})
+    chunks = [det[i::16] for i in range(16)]
+
+    def cls_of(c):
+        ks = [o["k"] for o in c["ops"] if o["k"] not in ("rt", "dec", "rej")]
+        return "stimulus_" + ks[0] if ks else "judged_only"
+
+    def nontriv(c):
+        ks = [o["k"] in ("rt", "dec", "rej") for o in c["ops"]]
+        return (False in ks and True in ks[ks.index(False):]) or len(set(c["blocks"])) > 1
+
+    def random_history(r):
+        b0, b1 = (_random_block(r) for _ in range(2))
+        ops = []
+        for _ in range(r.randrange(2, 10)):
+            i, x = r.randrange(3), r.random()
+            if x < 0.25:
+                ops.append({"k": "rt", "i": i, "form": r.choice(["bits", "bytes", "frozen"])})
+            elif x < 0.4:
+                ops.append({"k": "dec", "i": i, "rep": r.choice(["big", "little", "frozen_big", "frozen_little"]), "as_bytes": r.random() < 0.5})
+            elif x < 0.5:
+                ops.append({"k": "rej", "i": i, "pos": r.choice([0, 1, 47, 48, r.randrange(49)]), "pt": r.randrange(8), "as_bytes": r.random() < 0.5})
+            else:
+                ops.append(dict(random_stim(r), i=i))
+        return {"blocks": [b0, near_twin(b0, r.choice(TWIN_KINDS), r.randrange(144)), b1], "ops": ops}
+
+    n_random = ctx.pick(60, 1200)
+
+    def work(item, t: Tally):
+        r = ctx.rng("interleaved-random", item)
+        todo = [(c, None) for c in chunks[item]] + [(random_history(r), True) for _ in range(n_random)]
+        for n, (c, keyed) in enumerate(todo):
+            if not ctx.run_case(sub.name, oracle_interleaved, c, t):
+                # what a failing history left behind in this process may taint the next ones: report this one (it replays in a
+                # fresh interpreter) and stop this worker
+                t.excluded["histories not run after a failing history in the same worker"] += len(todo) - n - 1
+                break
+            t.case(sub.name, key=c if keyed else None, nontrivial=nontriv(c), cls=cls_of(c))
+        if chunks[item]:
+            t.sample(sub.name, chunks[item][0])
+
+    ctx.shards(work, list(range(16)))
+    ctx.tally.extra["interleaved_directed_histories"] = len(det)
+    ctx.tally.notes.append(f"interleaved: {len(det)} directed histories (every stimulus shape of trellis.py between two judged operations on the same block, on a near twin, and first in the history) + 16 x {n_random} seeded random histories of 2..9 operations over a block, its near twin and a third block")
+
+
 def drv_reject_transformed(ctx: Ctx, sub: SubCheck):
     if not tref.selfcheck():
         raise HarnessError("trellis reference self-check failed")
@@ -683,5 +1090,6 @@ SUBCHECKS = [
     SubCheck("reject", oracle_reject, drv_reject, "every unemittable point at every position of the chosen blocks makes decode raise"),
     SubCheck("reject_transformed", oracle_reject_transformed, drv_reject_transformed, "codewords with the interleave skipped / doubled / inverted, reversed, rotated, complemented, halves swapped: decode raises whenever the normative path meets an unemittable point"),
     SubCheck("reuse", oracle_reuse, drv_reuse, "histories: encode, caller damages the returned stream in place, encode/decode again (same or other block) - results independent of that"),
+    SubCheck("interleaved", oracle_interleaved, drv_interleaved, "histories: judged round trips / decodes / rejections with sibling entry points, rightly refused calls, foreign valid paths (flush tribit != 0), out-of-domain inputs and scribbled helper results in between, on the same block and on near twins; earlier results re-inspected at the end"),
 ]
 PREDICATES = {}
